@@ -220,7 +220,7 @@ func TestVP_C36_Malformed(t *testing.T) {
 }
 
 func TestVP_C36_RoundTrip(t *testing.T) {
-	st := vp.NewStats("C36", "roundtrip", "binary 0-4096 bytes x config 1-4096 bytes; non-trivial = binary or config itself ends with the magic / contains a trailer-like region, or sizes straddle 16/32-byte boundaries")
+	st := vp.NewStats("C36", "roundtrip", "binary 0-4096 bytes x config 1-4096 bytes x destination absent / holding an earlier longer or shorter embedding / other bytes; non-trivial = binary or config itself ends with the magic / contains a trailer-like region, or sizes straddle 16/32-byte boundaries")
 	defer st.Flush()
 	dir := t.TempDir()
 	rapid.Check(t, func(t *rapid.T) {
@@ -249,17 +249,37 @@ func TestVP_C36_RoundTrip(t *testing.T) {
 		}
 		src, dst := filepath.Join(dir, "src"), filepath.Join(dir, "dst")
 		os.Remove(dst)
+		// the destination may already exist (an update writes over the previous output):
+		// absent, an earlier embedding with a longer or shorter configuration, or other bytes
+		pre := rapid.SampledFrom([]string{"absent", "absent", "longer-embedding", "shorter-embedding", "other-bytes"}).Draw(t, "dstBefore")
+		switch pre {
+		case "longer-embedding", "shorter-embedding":
+			n := len(cfg) + rapid.IntRange(1, 3000).Draw(t, "delta")
+			if pre == "shorter-embedding" {
+				n = rapid.IntRange(1, max(1, len(cfg)-1)).Draw(t, "shorter")
+			}
+			old := filepath.Join(dir, "oldsrc")
+			os.WriteFile(old, bin, 0o755)
+			if err := embed.AppendConfig(old, dst, bytes.Repeat([]byte("o"), n)); err != nil && class != "bin-ends-with-magic" {
+				t.Fatalf("harness: preparing the destination: %v", err)
+			}
+		case "other-bytes":
+			os.WriteFile(dst, rapid.SliceOfN(rapid.Byte(), 0, 12000).Draw(t, "dstBytes"), 0o644)
+		}
 		if err := os.WriteFile(src, bin, 0o755); err != nil {
 			t.Fatalf("write: %v", err)
 		}
-		canon := fmt.Sprintf("class=%s bin=%d cfg=%d binTail=%x cfgTail=%x", class, len(bin), len(cfg), bin[max(0, len(bin)-8):], cfg[max(0, len(cfg)-8):])
-		st.Case(canon, class != "plain" || len(cfg)%32 < 2 || len(bin) < 16, class)
+		canon := fmt.Sprintf("class=%s dstBefore=%s bin=%d cfg=%d binTail=%x cfgTail=%x", class, pre, len(bin), len(cfg), bin[max(0, len(bin)-8):], cfg[max(0, len(cfg)-8):])
+		st.Case(canon, class != "plain" || len(cfg)%32 < 2 || len(bin) < 16 || pre != "absent", class, "dst-"+pre)
 		err := embed.AppendConfig(src, dst, cfg)
 		if err != nil {
 			if class == "bin-ends-with-magic" {
 				return // refusing a binary that already looks embedded is the documented behaviour
 			}
 			t.Fatalf("VPFAIL C36 AppendConfig failed: %v\n  case: %s", err, canon)
+		}
+		if whole, _ := os.ReadFile(dst); len(whole) != len(bin)+len(cfg)+16 || !bytes.HasPrefix(whole, bin) {
+			t.Fatalf("VPFAIL C36 the output file has %d bytes, binary + configuration + footer are %d (destination before: %s)\n  case: %s", len(whole), len(bin)+len(cfg)+16, pre, canon)
 		}
 		has, herr := embed.HasEmbeddedConfig(dst)
 		if herr != nil || !has {
